@@ -60,7 +60,13 @@ def acceptAwaitFree : Bool :=
 def topupResetLast : Bool :=
   decide (topup_order.idx_send_flow < topup_order.idx_store ∧ topup_order.idx_last___await < topup_order.idx_store)
 
-def recvParks : Bool := parkedBeforeRoom && acceptAwaitFree
+/-- which transfers are parked: the last transfer of EVERY delivery that is not aborted, settled by the
+    sender or not (the condition is outside the translatable subset, so its text is what is pinned) -/
+def parksEveryLastTransfer : Bool :=
+  recv_inner.cond_if_1_src ==
+    "self . auto_accept && matches ! (& frame , LinkFrame :: Transfer { performative , .. } if ! performative . more && ! performative . aborted)"
+
+def recvParks : Bool := parkedBeforeRoom && acceptAwaitFree && parksEveryLastTransfer
 
 /-! ## frames -/
 
